@@ -76,6 +76,9 @@ enum Beh {
     Cookie { age: i64, good: bool },
     /// a status attempt by a client that arrives after the stop request
     Late,
+    /// a status request whose response (a 48 MiB favicon) is far larger than every socket buffer, by a client that does
+    /// not read until 700 ms after the deadline: whatever the server still had to write then must never be written
+    NoRead,
 }
 
 #[derive(Clone, Debug)]
@@ -128,6 +131,8 @@ fn g_oz(o: Option<u64>) -> String { g_opt(o.map(|v| v.to_string())) }
 
 // ------------------------------------------------------------------ scripted adapters (mode 0)
 /// The handshake host of every scripted client is `c<id>x<latency ms>x<hang 0|1>`.
+/// size of the favicon served to a host name ending in `xH`
+const HUGE: usize = 48 << 20;
 fn parse_host(h: &str) -> (i64, u64, bool) {
     let p: Vec<&str> = h.trim_start_matches('c').split('x').collect();
     let id = p.first().and_then(|s| s.parse().ok()).unwrap_or(-1);
@@ -148,6 +153,9 @@ impl Ads {
 impl StatusAdapter for Ads {
     async fn status(&self, client: &SocketAddr, server: (&str, u16), _p: Protocol) -> passage_adapters::Result<Option<ServerStatus>> {
         self.note(server.0, "status", client);
+        if server.0.ends_with("xH") {
+            return Ok(Some(ServerStatus { favicon: Some("A".repeat(HUGE)), ..ServerStatus::default() }));
+        }
         Ok(Some(ServerStatus::default()))
     }
 }
@@ -439,6 +447,7 @@ async fn status_exchange(c: &mut Cl, first: Vec<u8>) {
 async fn client(t0: Instant, port: u16, cs: ConnScript, cfg: Cfg, obs: Arc<Mutex<Obs>>) {
     tokio::time::sleep_until(t0 + Duration::from_millis(cs.arrive)).await;
     let sock = TcpSocket::new_v4().unwrap();
+    if cs.beh == Beh::NoRead { let _ = sock.set_recv_buffer_size(4096); }
     sock.bind(SocketAddr::new(IpAddr::V4(cs.peer_ip), 0)).unwrap();
     obs.lock().unwrap().peer_port = sock.local_addr().unwrap().port();
     let Ok(s) = sock.connect(SocketAddr::new(IpAddr::V4(Ipv4Addr::LOCALHOST), port)).await else { return };
@@ -505,6 +514,28 @@ async fn client(t0: Instant, port: u16, cs: ConnScript, cfg: Cfg, obs: Arc<Mutex
             }
         }
         Beh::Status | Beh::Late => { let f = frame_bytes(0, &handshake_body(&host, 1)); status_exchange(&mut c, f).await; }
+        Beh::NoRead => {
+            let f = frame_bytes(0, &handshake_body(&format!("{}xH", host), 1));
+            if c.send_raw(&f).await && c.send_frame(0, &[]).await {
+                tokio::time::sleep_until(t0 + Duration::from_millis(cs.arrive + cfg.timeout_s * 1000 + 700)).await;
+                // now read whatever comes, counting raw bytes, until the server's close
+                let mut tmp = vec![0u8; 1 << 16];
+                let mut total = 0usize;
+                loop {
+                    match c.s.read(&mut tmp).await {
+                        Ok(0) | Err(_) => break,
+                        Ok(n) => { total += n; }
+                    }
+                }
+                let mut o = c.obs.lock().unwrap();
+                o.bytes = total as u64;
+                // The instant of the server's close cannot be observed behind unread data (the FIN is queued after it).
+                // What can: the stream ended, and it ended with what the socket buffers held when the deadline fired -
+                // a server that had gone on writing after its deadline would have delivered the whole response once
+                // the client started to read.  Truncated + ended = closed at the deadline; complete = never closed in time.
+                o.closed = if total >= HUGE { None } else { Some(cs.arrive + cfg.timeout_s * 1000) };
+            } else { c.drain().await; }
+        }
         Beh::Big(n) => { let f = big_handshake(&host, n); status_exchange(&mut c, f).await; }
         Beh::Login { pace: gap } => {
             c.ka_echo = true;
@@ -650,7 +681,7 @@ fn g_beh(b: &Beh) -> String {
         Beh::StopAt(k) => format!("(BStopAt {})", k), Beh::Status => "BStatus".into(), Beh::Probe => "BProbe".into(),
         Beh::Login { pace } => format!("(BLogin {})", pace), Beh::KaForever => "BKaForever".into(),
         Beh::Big(n) => format!("(BBig {})", n), Beh::Cookie { age, good } => format!("(BCookie {} {})", g_z(*age), g_bool(*good)),
-        Beh::Late => "BLate".into(),
+        Beh::Late => "BLate".into(), Beh::NoRead => "BNoRead".into(),
     }
 }
 fn emit(family: &str, mode: u8, cfg: &Cfg, conns: &[ConnScript], stop: Option<(u64, StopKind)>, end_ms: u64, run: &Run) {
@@ -805,7 +836,11 @@ fn main() {
                 let mut c = plain(23, 3, t, Beh::MidFrame, None); c.hdr = mk_hdr(&mut r, ((i + 1) % 2) as u32, &src2, timeout_s * 900); c.eff_ip = src2.ip(); conns.push(c); t += 140;
                 st.hit("DL.late_header_then_stall");
             }
-            let end = t + timeout_s * 1000 + 600;
+            if i % 8 == 0 && proxy.is_none() {
+                let c = plain(30, 4, t, Beh::NoRead, None); conns.push(c); t += 140;
+                st.hit("DL.response_larger_than_the_buffers_unread");
+            }
+            let end = t + timeout_s * 1000 + 1500;
             let run = run_case(0, &cfg, &conns, None, end);
             emit("DL", 0, &cfg, &conns, None, end, &run);
             st.hit(&format!("DL.timeout={}", timeout_s)); st.hit(&format!("DL.proxy={}", proxy.is_some())); ncase += 1;
